@@ -16,6 +16,7 @@ package codec
 //@ ensures err == nil ==> payloadSize == be32(buf, startFileOffset) && previousCrc == be32(buf, startFileOffset+4) && payloadCrc == be32(buf, startFileOffset+8)
 //@ ensures err == nil ==> payloadCrc == crcValue(crc32Update(previousCrc, buf[startFileOffset+12 : startFileOffset+12+payloadSize]))
 //@ ensures err != nil ==> errIs(err, ErrOffsetOutOfBounds) || errIs(err, ErrEmptyPayload) || errIs(err, ErrDataCorrupted)
+//@ ensures errIs(err, ErrEmptyPayload) ==> startFileOffset + 4 <= len(buf) && be32(buf, startFileOffset) == 0
 //@ modifies nothing
 
 //@ func V1.ReadHeaderWithValidation
@@ -25,3 +26,62 @@ package codec
 //@ ensures err == nil ==> payloadSize == be32(buf, startFileOffset)
 //@ ensures err != nil ==> errIs(err, ErrOffsetOutOfBounds) || errIs(err, ErrEmptyPayload)
 //@ modifies nothing
+
+//@ func V2.GetHeaderSize
+//@ property C10 C09
+//@ ensures result == v.HeaderSize
+//@ modifies nothing
+
+//@ func V1.GetHeaderSize
+//@ property C10 C09
+//@ ensures result == v.HeaderSize
+//@ modifies nothing
+
+//@ func V2.GetRecordSize
+//@ property C10 C09
+//@ requires len(buf) <= 4294967295 && v.HeaderSize == 12
+//@ ensures result1 == nil ==> result0 == 12 + be32(buf, startFileOffset) && startFileOffset + result0 <= len(buf) && result0 > 12
+//@ modifies nothing
+
+//@ func V1.GetRecordSize
+//@ property C10 C09
+//@ requires len(buf) <= 4294967295 && v.HeaderSize == 4
+//@ ensures err == nil ==> payloadSize == 4 + be32(buf, startFileOffset) && startFileOffset + payloadSize <= len(buf) && payloadSize > 4
+//@ modifies nothing
+
+//@ func V2.ReadRecordWithValidation
+//@ property C10 C09
+//@ requires len(buf) <= 4294967295 && v.HeaderSize == 12
+//@ ensures err == nil ==> len(payload) == be32(buf, startFileOffset) && startFileOffset + 12 + len(payload) <= len(buf)
+//@ ensures err == nil ==> forall k int :: 0 <= k && k < len(payload) ==> payload[k] == buf[startFileOffset+12+k]
+//@ ensures err != nil ==> errIs(err, ErrOffsetOutOfBounds) || errIs(err, ErrEmptyPayload) || errIs(err, ErrDataCorrupted)
+
+//@ func V1.ReadRecordWithValidation
+//@ property C10 C09
+//@ requires len(buf) <= 4294967295 && v.HeaderSize == 4
+//@ ensures err == nil ==> len(payload) == be32(buf, startFileOffset) && startFileOffset + 4 + len(payload) <= len(buf)
+//@ ensures err == nil ==> forall k int :: 0 <= k && k < len(payload) ==> payload[k] == buf[startFileOffset+4+k]
+
+//@ func BorrowEmptyIndexBuf
+//@ property C10
+//@ ensures len(result) == 0
+//@ modifies nothing
+
+//@ func V2.RecoverIndex
+//@ property C10
+//@ requires len(buf) <= 4294967295 && v.HeaderSize == 12 && startFileOffset <= len(buf)
+//@ requires 0 <= baseEntryOffset && baseEntryOffset < 4611686018427387904
+//@ loop 0 invariant startFileOffset <= newFileOffset && newFileOffset <= len(buf)
+//@ loop 0 invariant baseEntryOffset <= currentEntryOffset && len(index) == 4*(currentEntryOffset-baseEntryOffset)
+//@ loop 0 decreases len(buf) - newFileOffset
+//@ ensures err == nil ==> lastEntryOffset == baseEntryOffset + len(index)/4 - 1 && startFileOffset <= newFileOffset && newFileOffset <= len(buf)
+//@ ensures err == nil ==> newFileOffset + 12 > len(buf) || be32(buf, newFileOffset) == 0 || (commitOffset != nil && lastEntryOffset + 1 > *commitOffset)
+
+//@ func V1.RecoverIndex
+//@ property C10
+//@ requires len(buf) <= 4294967295 && v.HeaderSize == 4 && startFileOffset <= len(buf)
+//@ requires 0 <= baseEntryOffset && baseEntryOffset < 4611686018427387904
+//@ loop 0 invariant startFileOffset <= newFileOffset && newFileOffset <= len(buf)
+//@ loop 0 invariant baseEntryOffset <= currentEntryOffset && len(index) == 4*(currentEntryOffset-baseEntryOffset)
+//@ loop 0 decreases len(buf) - newFileOffset
+//@ ensures err == nil ==> lastEntryOffset == baseEntryOffset + len(index)/4 - 1 && startFileOffset <= newFileOffset && newFileOffset <= len(buf)
